@@ -8,6 +8,9 @@
 (*                               magnitude >= 2^31 given by its decimal    *)
 (*                               digits d; r = its canonical rendering     *)
 (*   [k |-> "inf", neg], [k |-> "nan"]                                     *)
+(*   [k |-> "tau", t]         =  t * (the double nearest 1e-9), t in       *)
+(*                               {-4,-2,-1,1,2,4}: the comparison          *)
+(*                               tolerance itself and its exact multiples  *)
 (* On this domain + - * / % abs ceil floor round min max, comparisons and  *)
 (* shortest decimal rendering are exact in IEEE doubles, so specification  *)
 (* and code must agree exactly.  An operation whose exact result leaves    *)
@@ -41,6 +44,8 @@ Zero == NInt(0)
 One == NInt(1)
 Inf(neg) == [k |-> "inf", neg |-> neg]
 NaN == [k |-> "nan"]
+Tau(t) == IF t = 0 THEN [k |-> "fin", n |-> 0, s |-> 0, e |-> 0]
+          ELSE IF t \in {-4, -2, -1, 1, 2, 4} THEN [k |-> "tau", t |-> t] ELSE OOD
 IsFin(x) == x.k = "fin"
 IsFin0(x) == x.k = "fin" /\ x.e = 0
 
@@ -49,12 +54,14 @@ Sign(x) ==
   CASE x.k = "fin" -> IF x.n > 0 THEN 1 ELSE IF x.n < 0 THEN -1 ELSE IF x.e > 0 THEN 1 ELSE IF x.e < 0 THEN -1 ELSE 0
     [] x.k = "big" -> IF x.neg THEN -1 ELSE 1
     [] x.k = "inf" -> IF x.neg THEN -1 ELSE 1
+    [] x.k = "tau" -> IF x.t < 0 THEN -1 ELSE 1
     [] OTHER -> 0
 
 NumNeg(x) ==
   CASE x.k = "fin" -> [x EXCEPT !.n = -x.n, !.e = -x.e]
     [] x.k = "big" -> [x EXCEPT !.neg = ~x.neg, !.r = IF x.neg THEN Tail(x.r) ELSE <<45>> \o x.r]
     [] x.k = "inf" -> [x EXCEPT !.neg = ~x.neg]
+    [] x.k = "tau" -> [x EXCEPT !.t = -x.t]
     [] OTHER -> x
 NumAbs(x) == IF Sign(x) < 0 THEN NumNeg(x) ELSE x
 
@@ -71,6 +78,9 @@ NumAdd(x, y) ==
   ELSE IF x.k = "inf" /\ y.k = "inf" THEN (IF x.neg = y.neg THEN x ELSE NaN)
   ELSE IF x.k = "inf" THEN x
   ELSE IF y.k = "inf" THEN y
+  ELSE IF x.k = "tau" /\ y.k = "tau" THEN Tau(x.t + y.t)       \* exact: power-of-two multiples
+  ELSE IF x.k = "tau" /\ y = Zero THEN x
+  ELSE IF y.k = "tau" /\ x = Zero THEN y
   ELSE OOD
 NumSub(x, y) == IF y.k = "ood" THEN OOD ELSE NumAdd(x, NumNeg(y))
 
@@ -124,12 +134,24 @@ NumRound(x) ==
 \* exact comparison: -1, 0, 1;  2 = unordered (nan); 3 = not decidable here
 BigCmpAbs(a, b) == IF Len(a) # Len(b) THEN (IF Len(a) < Len(b) THEN -1 ELSE 1)
                    ELSE IF a = b THEN 0 ELSE IF SeqLT(a, b) THEN -1 ELSE 1
+\* tau (= t * 1e-9, same sign as y here) against a fin value: 4*2^-32 < 1e-9 < 5*2^-32
+TauCmpFin(x, y) ==
+  IF y.n # 0 THEN (IF y.s <= 10 THEN (IF x.t > 0 THEN -1 ELSE 1) ELSE 3)       \* |y| >= 2^-10 > 4e-9
+  ELSE LET at == AbsI(x.t) ae == AbsI(y.e) IN            \* at * tau  vs  ae * 2^-32
+       IF ae >= 5 * at THEN (IF x.t > 0 THEN -1 ELSE 1)
+       ELSE IF ae <= 4 * at THEN (IF x.t > 0 THEN 1 ELSE -1)
+       ELSE 3
 NumCmp(x, y) ==
   IF x.k = "ood" \/ y.k = "ood" THEN 3
   ELSE IF x.k = "nan" \/ y.k = "nan" THEN 2
   ELSE IF x.k = "fin" /\ y.k = "fin" THEN
     LET d == NumSub(x, y) IN IF IsOOD(d) THEN 3 ELSE Sign(d)
   ELSE IF Sign(x) # Sign(y) THEN (IF Sign(x) < Sign(y) THEN -1 ELSE 1)
+  ELSE IF x.k = "tau" /\ y.k = "tau" THEN (IF x.t < y.t THEN -1 ELSE IF x.t > y.t THEN 1 ELSE 0)
+  ELSE IF x.k = "tau" /\ y.k = "fin" THEN TauCmpFin(x, y)
+  ELSE IF x.k = "fin" /\ y.k = "tau" THEN (LET c == TauCmpFin(y, x) IN IF c > 1 THEN c ELSE -c)
+  ELSE IF x.k = "tau" THEN -Sign(x)            \* same sign, y is big / inf: x is nearer to zero
+  ELSE IF y.k = "tau" THEN Sign(y)
   ELSE IF x.k = "inf" /\ y.k = "inf" THEN 0
   ELSE IF x.k = "inf" THEN Sign(x)
   ELSE IF y.k = "inf" THEN -Sign(x)
@@ -146,6 +168,11 @@ Near(x, y) ==
     ELSE IF d.n = 0 THEN (IF AbsI(d.e) <= 4 THEN "yes" ELSE "no")
     ELSE IF d.s <= 10 /\ AbsI(d.e) < 4096 THEN "no"      \* |n/2^s| >= 2^-10 >> (4096+5)*2^-32
     ELSE "und"
+  ELSE IF x.k = "tau" /\ y.k = "tau" THEN (IF x.t = y.t THEN "yes" ELSE "no")    \* |t1 - t2| * tau >= tau: not below the tolerance
+  ELSE IF x.k = "tau" /\ y = Zero THEN "no"                                     \* |t| * tau >= tau
+  ELSE IF y.k = "tau" /\ x = Zero THEN "no"
+  ELSE IF (x.k = "tau" /\ y.k = "fin" /\ y.n # 0 /\ y.s <= 10) \/ (y.k = "tau" /\ x.k = "fin" /\ x.n # 0 /\ x.s <= 10) THEN "no"
+  ELSE IF x.k = "tau" \/ y.k = "tau" THEN (IF x.k \in {"big"} \/ y.k \in {"big"} THEN "no" ELSE "und")
   ELSE IF x.k = "big" /\ y.k = "big" THEN (IF x = y THEN "yes" ELSE "no")   \* distinct doubles >= 2^31 differ by >= 2^-21
   ELSE IF x.k \in {"nan", "inf"} \/ y.k \in {"nan", "inf"} THEN "und"    \* property text does not settle these
   ELSE IF x.k = "ood" \/ y.k = "ood" THEN "und"
@@ -203,6 +230,7 @@ NumText(x) ==
     [] x.k = "big" -> x.r
     [] x.k = "inf" -> IF x.neg THEN N_nInf ELSE N_pInf
     [] x.k = "nan" -> N_NaN
+    [] x.k = "tau" -> (IF x.t < 0 THEN <<45>> ELSE <<>>) \o <<48, 46, 48, 48, 48, 48, 48, 48, 48, 48, 48 + AbsI(x.t)>>
     [] OTHER -> <<>>
 NumTextKnown(x) == NumText(x) # <<>>
 
